@@ -257,6 +257,9 @@ impl Execute for ast::CompoundList {
                 }
 
                 result = ExecutionResult::success();
+
+                // The exit status of an asynchronous list is zero.
+                shell.set_last_exit_status(0);
             } else {
                 result = ao_list.execute(shell, params).await?;
 
